@@ -14,6 +14,7 @@ CONSTANTS
   MinCuts = 0
   MaxAck = 0
   MaxBulk = 0
+  MaxFrag = 0
   Dts = {1}
   BatchMode = "chrono"
 INVARIANTS TypeOK IdealIsExpected PrefixMonotone NoCrossDirectionReordering BoundedDisplacement NeverIdle HandshakeFirst PrintSchedule
